@@ -31,3 +31,6 @@ def run(ck):
     sizes.resize_rules(ck, {"nint": "C02.R3"})        # optimal sizes read x.n_int: it must be current after every resize
     carriers.machine_carrier(ck, "C18.R5")
     routes.numpy_dispatch_transparent(ck, "C15.R5")
+    fresh.constructor_state(ck, "C20.R2")            # results and operands are built by the constructor: own status record, own final configuration
+    funcs.governing_config(ck, "C08.R3")
+    funcs.route_selection(ck, "C07.R8")
